@@ -80,4 +80,77 @@ theorem C03loop_mulWindowed_frame (dbl : G → G) (hdbl : ∀ x, dbl x = x + x) 
 
 end Group
 
+/-! ## twisted Edwards: `scalarMulWindowed` / `ScalarMultiplication` of `PointProj` and `PointExtended`
+
+Subject: `Gen/Imp/TEMul_<curve>_{Proj,Ext}.lean`, regenerated from `ecc/<curve>/twistededwards/point.go` (7 packages) and
+`ecc/bls12-381/bandersnatch/point.go` (only `scalarMulWindowed`: its `ScalarMultiplication` goes through `scalarMulGLV`, not translated):
+the copy of the scalar into a local `big.Int`, the sign folding (`_scalar.Neg`, `p.Neg(p)` on the RECEIVER, which is then the base point of
+the loop), `resProj.setInfinity()` = `zero`, the word loop from the top word of `_scalar.Bits()` down, the 64 bits of a word MSB first
+(`const wordSize = bits.UintSize` read as 64: 64-bit platform), `Double(&res)` = `dbl`, `Add(&res, p)` = `add`, the final copy.
+`ScalarMultiplication` = the call of `scalarMulWindowed` on the same receiver and arguments. Same parameters / hypotheses as above. -/
+
+section
+variable {G : Type}
+
+/-- REFINEMENT (bn254 `PointProj`): translated `scalarMulWindowed` = `teScalarMul` of the model, every dictionary, every integer scalar -/
+theorem C03loop_te_refines (add : G → G → G) (dbl neg : G → G) (zero uninit : G) (hdbl : ∀ x, dbl x = add x x)
+    (p p1 : G) (s : ℤ) :
+    TEMul_bn254_Proj.scalarMulWindowed add dbl neg zero uninit p p1 s = teScalarMul ⟨add, neg, zero⟩ s p1 :=
+  te_eq_model add dbl neg zero uninit hdbl p p1 s
+
+/-- all 16 instances (8 packages × {PointProj, PointExtended}) -/
+theorem C03loop_te_refines_all (add : G → G → G) (dbl neg : G → G) (zero uninit : G) (hdbl : ∀ x, dbl x = add x x) :
+    ∀ e ∈ TEMulAll.all_scalarMulWindowed, ∀ (p p1 : G) (s : ℤ),
+      e.2 add dbl neg zero uninit p p1 s = teScalarMul ⟨add, neg, zero⟩ s p1 := by
+  intro e he p p1 s
+  have h := TEMulAll.all_scalarMulWindowed_same e he
+  have h' : e.2 add dbl neg zero uninit p p1 s = TEMul_bn254_Proj.scalarMulWindowed add dbl neg zero uninit p p1 s := by
+    rw [← h]
+  rw [h']
+  exact te_eq_model add dbl neg zero uninit hdbl p p1 s
+
+/-- the exported `ScalarMultiplication` of the 14 non-bandersnatch instances -/
+theorem C03loop_te_ScalarMultiplication_all (add : G → G → G) (dbl neg : G → G) (zero uninit : G) (hdbl : ∀ x, dbl x = add x x) :
+    ∀ e ∈ TEMulAll.all_ScalarMultiplication, ∀ (p p1 : G) (s : ℤ),
+      e.2 add dbl neg zero uninit p p1 s = teScalarMul ⟨add, neg, zero⟩ s p1 := by
+  intro e he p p1 s
+  have h := TEMulAll.all_ScalarMultiplication_same e he
+  have h' : e.2 add dbl neg zero uninit p p1 s = TEMul_bn254_Proj.ScalarMultiplication add dbl neg zero uninit p p1 s := by
+    rw [← h]
+  rw [h']
+  exact te_eq_model add dbl neg zero uninit hdbl p p1 s
+
+example : TEMulAll.all_scalarMulWindowed.length = 16 ∧ TEMulAll.all_ScalarMultiplication.length = 14 := ⟨rfl, rfl⟩
+end
+
+section Group
+variable {G : Type} [AddCommGroup G]
+
+/-- C03 for the translated twisted-Edwards text: `s • P` for every s ∈ ℤ in every additive commutative group -/
+theorem C03loop_te_smul (dbl : G → G) (hdbl : ∀ x, dbl x = x + x) (uninit p P : G) (s : ℤ) :
+    TEMul_bn254_Proj.scalarMulWindowed (· + ·) dbl Neg.neg 0 uninit p P s = s • P := by
+  rw [C03loop_te_refines (· + ·) dbl Neg.neg 0 uninit hdbl p P s]
+  exact C03_teScalarMul s P
+
+example : TEMul_bn254_Proj.scalarMulWindowed (· + ·) (fun x : ℤ => 2 * x) Neg.neg 0 12345 99 7 (-(2 ^ 70) - 3) = (-(2 ^ 70) - 3) * 7 := by
+  rw [C03loop_te_smul _ (fun x => by ring)]; rfl
+
+theorem C03loop_te_smul_all (dbl : G → G) (hdbl : ∀ x, dbl x = x + x) (uninit : G) :
+    (∀ e ∈ TEMulAll.all_scalarMulWindowed, ∀ (p P : G) (s : ℤ), e.2 (· + ·) dbl Neg.neg 0 uninit p P s = s • P) ∧
+    (∀ e ∈ TEMulAll.all_ScalarMultiplication, ∀ (p P : G) (s : ℤ), e.2 (· + ·) dbl Neg.neg 0 uninit p P s = s • P) := by
+  constructor
+  · intro e he p P s
+    rw [C03loop_te_refines_all (· + ·) dbl Neg.neg 0 uninit hdbl e he p P s]
+    exact C03_teScalarMul s P
+  · intro e he p P s
+    rw [C03loop_te_ScalarMultiplication_all (· + ·) dbl Neg.neg 0 uninit hdbl e he p P s]
+    exact C03_teScalarMul s P
+
+/-- the Weierstrass window loop and the Edwards bit loop, both as translated, agree on every input -/
+theorem C03loop_variants_agree (dbl : G → G) (hdbl : ∀ x, dbl x = x + x) (u p P : G) (s : ℤ) :
+    MulW_bn254_G1.mulWindowed (· + ·) dbl Neg.neg 0 u p P s = TEMul_bn254_Proj.scalarMulWindowed (· + ·) dbl Neg.neg 0 u p P s := by
+  rw [C03loop_mulWindowed_smul dbl hdbl, C03loop_te_smul dbl hdbl]
+
+end Group
+
 end GV.ScalarMulGen
